@@ -39,6 +39,13 @@ def H(W, S, kind):
     return {'h': S.pick(hs)}
 
 
+def HS(W, S, kind, p_str=0.3):
+    """an argument documented as 'dictionary or its string form'"""
+    if W['kinds'].get(kind + 'str') and S.coin(p_str):
+        return H(W, S, kind + 'str')
+    return H(W, S, kind)
+
+
 def SEQ(W, S, p_str=0.1):
     """a sequence argument: mostly a shared annotation, sometimes the plain string"""
     if W['kinds'].get('str') and S.coin(p_str):
@@ -241,22 +248,22 @@ op('mod_mass', lambda S, W: ok({'mod': H(W, S, 'modlist'), 'monoisotopic': V(S.c
 op('condense_to_mass_mods',
    lambda S, W: ok({'sequence': SEQ(W, S), 'include_plus': V(S.coin(0.3)), 'precision': V(S.pick([6, 3, 8]))}),
    lambda pt, a: pt.condense_to_mass_mods(a['sequence'], a['include_plus'], a['precision']), weight=2)
-op('glycan_mass', lambda S, W: ok({'formula': H(W, S, 'gcomp'), 'monoisotopic': V(S.coin(0.7))}),
+op('glycan_mass', lambda S, W: ok({'formula': HS(W, S, 'gcomp'), 'monoisotopic': V(S.coin(0.7))}),
    lambda pt, a: pt.glycan_mass(a['formula'], a['monoisotopic']))
-op('glycan_mz', lambda S, W: ok({'formula': H(W, S, 'gcomp'), 'charge': V(S.pick([1, 2]))}),
+op('glycan_mz', lambda S, W: ok({'formula': HS(W, S, 'gcomp'), 'charge': V(S.pick([1, 2]))}),
    lambda pt, a: pt.glycan_mz(a['formula'], a['charge']))
-op('chem_mz', lambda S, W: ok({'formula': H(W, S, 'comp'), 'charge': V(S.pick([1, 2]))}),
+op('chem_mz', lambda S, W: ok({'formula': HS(W, S, 'comp'), 'charge': V(S.pick([1, 2]))}),
    lambda pt, a: pt.chem_mz(a['formula'], a['charge']))
 
 # ------------------------------------------------------------------------------------------ chem / glycan
 
-op('chem_mass', lambda S, W: ok({'formula': H(W, S, 'comp'), 'monoisotopic': V(S.coin(0.7))}),
+op('chem_mass', lambda S, W: ok({'formula': HS(W, S, 'comp'), 'monoisotopic': V(S.coin(0.7))}),
    lambda pt, a: pt.chem_mass(a['formula'], a['monoisotopic']))
 op('write_chem_formula',
    lambda S, W: ok({'composition': H(W, S, 'comp'), 'sep': V(S.pick(['', ' '])), 'hill_order': V(S.coin())}),
    lambda pt, a: pt.write_chem_formula(a['composition'], a['sep'], a['hill_order']))
 op('apply_isotope_mods_to_composition',
-   lambda S, W: ok({'composition': H(W, S, 'comp'), 'isotopic_mods': H(W, S, 'isolist')}),
+   lambda S, W: ok({'composition': HS(W, S, 'comp'), 'isotopic_mods': H(W, S, 'isolist')}),
    lambda pt, a: pt.apply_isotope_mods_to_composition(a['composition'], a['isotopic_mods']))
 op('mod_comp', lambda S, W: ok({'mod': V(S.pick(SP.UNIMOD + SP.FORMULA + SP.GLYCAN + SP.ACC))}),
    lambda pt, a: pt.mod_comp(a['mod']), weight=0.5)
@@ -264,12 +271,12 @@ op('estimate_comp',
    lambda S, W: ok({'neutral_mass': V(S.pick([500.25, 1234.5, 80.0])),
                     'isotopic_mods': H(W, S, 'isolist') if S.coin(0.5) else V(None)}),
    lambda pt, a: pt.estimate_comp(a['neutral_mass'], a['isotopic_mods']))
-op('glycan_comp', lambda S, W: ok({'glycan': H(W, S, 'gcomp')}), lambda pt, a: pt.glycan_comp(a['glycan']))
+op('glycan_comp', lambda S, W: ok({'glycan': HS(W, S, 'gcomp')}), lambda pt, a: pt.glycan_comp(a['glycan']))
 op('write_glycan_formula', lambda S, W: ok({'glycan_dict': H(W, S, 'gcomp')}),
    lambda pt, a: pt.write_glycan_formula(a['glycan_dict']))
-op('convert_glycan_formula_to_chem_formula', lambda S, W: ok({'glycan': H(W, S, 'gcomp')}),
+op('convert_glycan_formula_to_chem_formula', lambda S, W: ok({'glycan': HS(W, S, 'gcomp')}),
    lambda pt, a: pt.convert_glycan_formula_to_chem_formula(a['glycan']))
-op('glycan_to_chem', lambda S, W: ok({'glycan': H(W, S, 'gcomp')}), lambda pt, a: pt.glycan_to_chem(a['glycan']))
+op('glycan_to_chem', lambda S, W: ok({'glycan': HS(W, S, 'gcomp')}), lambda pt, a: pt.glycan_to_chem(a['glycan']))
 
 # ------------------------------------------------------------------------------------------ isotope
 
@@ -457,7 +464,8 @@ op('filter_missing_mono_isotope', lambda S, W: ok({'fragment_matches': H(W, S, '
 op('filter_skipped_isotopes', lambda S, W: ok({'fragment_matches': H(W, S, 'fmatches')}),
    lambda pt, a: pt.filter_skipped_isotopes(a['fragment_matches']))
 op('binomial_score',
-   lambda S, W: ok({'fragments': H(W, S, 'frags'), 'mz_spectra': H(W, S, 'mz'),
+   # both documented forms of `fragments`: Fragment objects or a plain list of m/z values
+   lambda S, W: ok({'fragments': H(W, S, 'frags') if S.coin(0.5) else H(W, S, 'mz'), 'mz_spectra': H(W, S, 'mz'),
                     'tolerance_value': V(S.pick([0.02, 0.5])), 'tolerance_type': V(S.pick(['th', 'ppm']))}),
    lambda pt, a: pt.binomial_score(a['fragments'], a['mz_spectra'], a['tolerance_value'], a['tolerance_type']))
 op('get_matched_intensity_percentage',
